@@ -8,7 +8,7 @@ from contextlib import contextmanager
 
 from ..contracts import *  # noqa: F401,F403
 from ..effects import CallGraph, check_ownership, inventory
-from ..interp import Frame
+from ..interp import Frame, SetupVerdict
 from ..loader import AnalysisError
 from ..models import DictV, NativeV
 from ..report import Result
@@ -76,6 +76,7 @@ class Scenario:
     def validity(self, kind, tag):
         """-> (value handed to update, period it denotes as (year, month, day) with None = unrestricted)"""
         Y, Mo, D = _k(tag + ".Y"), _k(tag + ".M"), _k(tag + ".D")
+        self.valid_date(Y, Mo, D)
         if kind == "None":
             return NONE, (None, None, None)
         if kind == "year":
@@ -94,7 +95,31 @@ class Scenario:
             return s, s
         if kind == "float":
             return self.c.num(tag + ".x", "float"), None
+        if kind in ("year 0", "year 10000"):
+            return Num(RF.const(int(kind.split()[1])), "int"), None
+        if kind in ("month 0", "month 13"):
+            return TupleV([Y, Num(RF.const(int(kind.split()[1])), "int")]), None
         raise AnalysisError(kind)
+
+    def valid_date(self, y, m, d):
+        """The scenario states: (y, m, d) is a date that exists (so a period built from it is a valid period)."""
+        known = getattr(self.st, "valid_date_parts", None)
+        if known is None:
+            known = self.st.valid_date_parts = set()
+        for pos, x in enumerate((y, m, d)):
+            known.add((repr(self.st.norm(x.rf)), pos))
+
+    judge_rejections = False      # C11 itself judges a rejected valid period; other properties drop such paths
+
+    def stated_valid(self, period):
+        """All restricted components of the period are stated to be those of an existing date."""
+        if not isinstance(period, tuple):
+            return False
+        known = getattr(self.st, "valid_date_parts", None) or set()
+        return all(x is None or (repr(self.st.norm(x.rf)), pos) in known for pos, x in enumerate(period))
+
+    def date_rejected(self, since):
+        return any(t in ("date()=ValueError", "fromisoformat=ValueError") for t in self.st.oracle.trace[since:])
 
     def shifted(self, kind, tag, base_tag, what):
         """A validity of the same kind as `base_tag`'s, for another period: what = 'next' (last component + 1) or
@@ -135,10 +160,18 @@ class Scenario:
             spec_vals.append(TupleV([curv, ta, um]))
             rows.append((n, ta.rf, um.rf))
         up = self.prog.method("MoneyConverter", "update")
+        n_tr = len(self.st.oracle.trace)
         with frame(self.I, self.prog):
             try:
                 self.I.call_function(up, [self.conv, validity, ListV(spec_vals)], {})
-            except AbsRaise:
+            except AbsRaise as ex:
+                if must_accept and self.stated_valid(period) and self.date_rejected(n_tr):
+                    # the scenario states that the period exists; whatever the update validated, it was not that period
+                    if Scenario.judge_rejections:
+                        raise SetupVerdict("valid period rejected",
+                                           f"update() for the period {period!r}, which the scenario states to exist, can raise "
+                                           f"{ex.exc.name if hasattr(ex, 'exc') else 'an exception'} from the date check: "
+                                           "it validates something else than the period given")
                 if must_accept:
                     raise Infeasible        # invalid period / amount on this path: not part of the history
                 return False
@@ -161,6 +194,8 @@ class Scenario:
             comps[i] = Num(comps[i].rf + RF.const(1), "int")
         names = ("year", "month", "day")
         vals = [x if x is not None else _k(f"{tag}.{names[i]}") for i, x in enumerate(comps)]
+        if bump is None:
+            self.valid_date(*vals)
         return DateV(tag, *vals)
 
     def contains(self, period, d: DateV):
@@ -260,6 +295,7 @@ def snapshot(st, v, depth=0, seen=None):
 
 def run(prog, tier) -> Result:
     res = Result("C11")
+    Scenario.judge_rejections = True
     res.explanation = (
         "Converters are built by evaluating the constructor and sequences of update() calls with symbolic periods, "
         "amounts and unit multiples - validity given as None, year, (year, month), date and as text of one, two or "
@@ -521,6 +557,7 @@ def run(prog, tier) -> Result:
             s.before = snapshot(c.st, s.conv)
             v, _p = s.validity(vkind, "q")
             s.vkind, s.prior = vkind, prior
+            s.up_period, s.up_trace0 = _p, len(c.st.oracle.trace)
             good = TupleV([s.cur["cb"], c.num("ta_n", "dec"), c.num("um_n", "int")])
             specs = [good]
             if bad_spec == "amount":
@@ -542,12 +579,18 @@ def run(prog, tier) -> Result:
         if o.kind == "raise":
             if o.exc.name not in ("ValueError", "TypeError"):
                 return (exc_sig(o), "contract: ValueError")
+            if s.vkind in ("year", "month", "date") and s.stated_valid(s.up_period) and s.date_rejected(s.up_trace0) and \
+                    (s.prior is None or KIND_OF[s.prior] == KIND_OF[s.vkind]) and s.bad_spec in ("none", "symbolic"):
+                return ("valid period rejected", f"{exc_sig(o)} from the date check although the period {s.up_period!r} exists: "
+                        "the update validates something else than the period given")
             if after != s.before:
                 return ("update rejected after the converter was changed",
                         f"{exc_sig(o)}; converter before {s.before!r}, after {after!r}"[:600])
             return None
         if s.vkind == "float":
             return ("invalid validity accepted", o.brief())
+        if s.vkind in ("year 0", "year 10000", "month 0", "month 13"):
+            return ("invalid period accepted", f"there is no {s.vkind}; " + o.brief())
         if s.vkind == "text":
             nf_ = getattr(o.args[1], "n_fields", None)
             if nf_ is not None and nf_[1] not in (1, 2, 3):
@@ -573,6 +616,11 @@ def run(prog, tier) -> Result:
             for bad in ("none", "symbolic") + (("amount", "base") if vk in ("year", "None") else ()):
                 cr.run("R11.5", UP, f"update validity {vk} after {'no' if prior is None else 'a ' + prior} update, "
                        f"{'valid specs' if bad == 'none' else 'second spec: ' + bad}", up_setup(prior, vk, bad), judge_up)
+    for vk, priors in (("year 0", (None, "year")), ("year 10000", (None, "year")), ("month 0", (None, "month")),
+                       ("month 13", (None, "month"))):
+        for prior in priors:
+            cr.run("R11.5", UP, f"update validity {vk} after {'no' if prior is None else 'a ' + prior} update, valid specs",
+                   up_setup(prior, vk, "none"), judge_up)
 
     # a rejected first update does not fix the kind of validity: a later update of another kind is accepted and read
     def after_reject_setup(c):
@@ -621,7 +669,7 @@ def run(prog, tier) -> Result:
     res.require("R11.2", 4)
     res.require("R11.3", 32)
     res.require("R11.4", 20)
-    res.require("R11.5", 30)
+    res.require("R11.5", 38)
     res.require("R11.6", 9)
     res.require("R11.7", 10)
     res.require("R11.9", 24)
